@@ -93,6 +93,24 @@ def gen_prepare(ctx, theorems: list[str], covers: str):
             finally:
                 tmp.unlink(missing_ok=True)
             flat = re.sub(r"\s+", " ", q.stdout + q.stderr)
+            if getattr(ctx, "thorough", False):
+                # thorough tier: the independent re-checker replays the compiled proof modules that state the named theorems
+                pref = {"Control": ["ControlSpec", "ControlFit"], "VAT": ["VATSpec"], "Dual": ["DualSpec"], "Topo": ["TopoSpec"],
+                        "TopoStep": ["TopoStepSpec"], "ICVI": ["ICVISpec"], "Prep": ["PrepSpec"], "Falcon": ["FalconSpec"],
+                        "ARTMAP": ["ARTMAPSpec"], "Deep": ["DeepSpec"], "Bartmap": ["BartmapSpec"], "FusionPredict": ["FusionPredictSpec"],
+                        "Gate": ["GateSpec"], "Whole": ["WholeSpec"], "K2": ["Kernels2Spec"], "Params": ["ParamsSpec"],
+                        "FusionFit": ["FusionFitSpec"]}
+                mods = set()
+                for t in theorems:
+                    head = t.split(".")[0] if "." in t else None
+                    mods.update(pref.get(head, ["FusionSpec"] if t.startswith("fusion_") else ["GenSpec"]))
+                for mod_ in sorted(mods):
+                    if not (LEAN_DIR / "ArtGenProofs" / f"{mod_}.lean").exists():
+                        continue
+                    q_ = subprocess.run(["lake", "env", "leanchecker", f"ArtGenProofs.{mod_}"], cwd=LEAN_DIR, capture_output=True, text=True)
+                    ctx.log.append(f"leanchecker ArtGenProofs.{mod_}: rc={q_.returncode}")
+                    if q_.returncode != 0:
+                        ctx.issue("audit", f"obligation:leanchecker:ArtGenProofs.{mod_}", (q_.stdout + q_.stderr)[-400:])
             for n in names:
                 m = re.search(r"'" + re.escape(n) + r"' (does not depend on any axioms|depends on axioms: \[([^\]]*)\])", flat)
                 if not m:
